@@ -10,6 +10,8 @@
 //	pre <op>                    sequential prefix, executed by thread 0
 //	call <tid> <op>             the concurrent part: thread <tid> (1..8) issues its calls in order
 //	post <op>                   sequential suffix (observer, thread 0): drain / dump / asslice / range ...
+//	burst p=P c=C n=N seed=S    (clq only) a long permit burst, see runBurst; observation: counters and
+//	                            witness projections `w <events>` that the driver checks like histories
 //	run reps=R extra=E seed=S   execute the scenario R times on fresh objects, record one history each;
 //	                            then up to E more times, recording only a history in which a call panicked
 //	                            (or, for the queues, an element was lost / duplicated / invented)
@@ -533,6 +535,9 @@ func suspicious(kind string, all []event) bool {
 			return true
 		}
 	}
+	if kind == "clq" && falseEmpty(all) {
+		return true
+	}
 	if drained {
 		for v := range in {
 			if outc[v] == 0 {
@@ -541,6 +546,370 @@ func suspicious(kind string, all []event) bool {
 		}
 	}
 	return false
+}
+
+// falseEmpty: some Dequeue answered `empty` although an element whose Enqueue had returned before
+// that Dequeue was invoked was taken out only by a Dequeue invoked after it returned (or never):
+// the element was in the queue during the whole call.
+func falseEmpty(all []event) bool {
+	type iv struct{ inv, res int64 }
+	enq := map[string]iv{}
+	deq := map[string]iv{}
+	var empties []iv
+	open := map[int]event{}
+	for _, e := range all {
+		if !e.isRes {
+			open[e.tid] = e
+			continue
+		}
+		i, ok := open[e.tid]
+		if !ok || len(i.w) == 0 {
+			continue
+		}
+		switch {
+		case i.w[0] == "enq" && e.r == "ok":
+			enq[i.w[1]] = iv{i.stamp, e.stamp}
+		case i.w[0] == "deq" && strings.HasPrefix(e.r, "v:"):
+			deq[e.r[2:]] = iv{i.stamp, e.stamp}
+		case i.w[0] == "deq" && e.r == "empty":
+			empties = append(empties, iv{i.stamp, e.stamp})
+		}
+	}
+	for _, d := range empties {
+		for v, en := range enq {
+			if en.res < d.inv {
+				if dq, ok := deq[v]; !ok || dq.inv > d.res {
+					return true
+				}
+			}
+		}
+	}
+	return false
+}
+
+// ---------------------------------------------------------------------------------------------
+// bursts: long, tight producer/consumer runs on ConcurrentLinkedQueue with *permits*
+//
+// Producers publish a permit only after their Enqueue has returned; a consumer takes a permit before it
+// calls Dequeue.  So every Dequeue runs while at least one element is in the queue, and an `empty`
+// answer is suspicious (a window of a few instructions inside Dequeue is hit thousands of times more
+// often here than in the short scenarios).  A burst is far too long for the linearizability search, so
+// for every suspicious event the harness extracts a **witness projection**: the burst's history
+// restricted to the calls on a small set V of values (Enqueue(v), the Dequeues answering v, v in V) plus
+// the suspicious Dequeue.  Restricting a FIFO history to the calls on a subset of (unique) values
+// preserves linearizability (the linearization of the whole history, restricted, is a linearization of
+// the part: a dequeued head of the queue is the head of the V-elements, an empty queue has no
+// V-elements), so a projection that is NOT linearizable proves that the burst was not.  The verdict on
+// the projection is the Lean driver's (`w <events>` is checked exactly like `h <events>`).
+//   false empty : V = the values possibly in the queue during the call (enqueue invoked before it
+//                 returned, not dequeued before it was invoked)
+//   duplicate   : V = {v} for a value answered twice;   invented: a value never enqueued
+//   lost        : V = {v} for a value never dequeued, with the final Dequeue → empty of the drain
+//   reordered   : V = {x, y} of one producer, taken out in the wrong order by one consumer
+//   panic       : the panicking call alone
+
+type bev struct {
+	inv, res int64
+	tid      int
+	enq      bool
+	val      int
+	out      byte // 'o' ok, 'v' value, 'z' empty, 'p' panic, 'x' other error
+}
+
+func (e bev) toks() (event, event) {
+	i := event{stamp: e.inv, tid: e.tid, w: []string{"deq"}}
+	if e.enq {
+		i.w = []string{"enq", strconv.Itoa(e.val)}
+	}
+	r := event{stamp: e.res, tid: e.tid, isRes: true}
+	switch e.out {
+	case 'o':
+		r.r = "ok"
+	case 'v':
+		r.r = "v:" + strconv.Itoa(e.val)
+	case 'z':
+		r.r = "empty"
+	case 'p':
+		r.r = "panic"
+	default:
+		r.r = "err:other"
+	}
+	return i, r
+}
+
+func witness(calls []bev) string {
+	var all []event
+	for _, c := range calls {
+		i, r := c.toks()
+		all = append(all, i, r)
+	}
+	h := render(all)
+	return "w" + h[1:]
+}
+
+type burstResult struct {
+	ops, empties, panics, dups, lost, invented, reordered int
+	hung                                                  bool
+	witnesses                                             []string
+}
+
+func runBurst(p map[string]string) burstResult {
+	P, C, N := atoi(p["p"]), atoi(p["c"]), atoi(p["n"])
+	if P <= 0 || C <= 0 || N <= 0 {
+		return burstResult{}
+	}
+	q := queue.NewConcurrentLinkedQueue[int]()
+	var clock, permits, consumed int64
+	var start, fin, stop, prodDone int32
+	total := int64(P * N)
+	evs := make([][]bev, P+C)
+	capC := 4*P*N/C + 4096
+	for i := 0; i < P; i++ {
+		go func(i int) {
+			local := make([]bev, 0, N)
+			for atomic.LoadInt32(&start) == 0 {
+			}
+			for j := 0; j < N && atomic.LoadInt32(&stop) == 0; j++ {
+				e := bev{tid: i + 1, enq: true, val: (i+1)*1000000 + j + 1, out: 'o'}
+				e.inv = atomic.AddInt64(&clock, 1)
+				func() {
+					defer func() {
+						if r := recover(); r != nil {
+							e.out = 'p'
+						}
+					}()
+					if err := q.Enqueue(e.val); err != nil {
+						e.out = 'x'
+					}
+				}()
+				e.res = atomic.AddInt64(&clock, 1)
+				local = append(local, e)
+				if e.out == 'o' {
+					atomic.AddInt64(&permits, 1)
+				}
+			}
+			evs[i] = local
+			atomic.AddInt32(&prodDone, 1)
+			atomic.AddInt32(&fin, 1)
+		}(i)
+	}
+	for i := 0; i < C; i++ {
+		go func(i int) {
+			local := make([]bev, 0, capC)
+			for atomic.LoadInt32(&start) == 0 {
+			}
+			idle := 0
+			for atomic.LoadInt64(&consumed) < total && atomic.LoadInt32(&stop) == 0 && len(local) < capC {
+				pm := atomic.LoadInt64(&permits)
+				if pm <= 0 || !atomic.CompareAndSwapInt64(&permits, pm, pm-1) {
+					idle++
+					if idle > 200 {
+						runtime.Gosched()
+					}
+					continue
+				}
+				idle = 0
+				e := bev{tid: P + i + 1}
+				e.inv = atomic.AddInt64(&clock, 1)
+				func() {
+					defer func() {
+						if r := recover(); r != nil {
+							e.out = 'p'
+						}
+					}()
+					v, err := q.Dequeue()
+					switch {
+					case err == nil:
+						e.out, e.val = 'v', v
+					case qerr(err) == "empty":
+						e.out = 'z'
+					default:
+						e.out = 'x'
+					}
+				}()
+				e.res = atomic.AddInt64(&clock, 1)
+				local = append(local, e)
+				if e.out == 'v' {
+					atomic.AddInt64(&consumed, 1)
+				} else {
+					atomic.AddInt64(&permits, 1) // the element this permit stands for is still there
+				}
+			}
+			evs[P+i] = local
+			atomic.AddInt32(&fin, 1)
+		}(i)
+	}
+	alive()
+	atomic.StoreInt32(&start, 1)
+	t0 := time.Now()
+	for polls := 0; atomic.LoadInt32(&fin) != int32(P+C); polls++ {
+		runtime.Gosched()
+		if polls%1024 == 1023 {
+			el := time.Since(t0)
+			// producers done but the consumers cannot finish (an element was lost): stop them
+			if atomic.LoadInt32(&prodDone) == int32(P) && el > 1500*time.Millisecond {
+				atomic.StoreInt32(&stop, 1)
+			}
+			if el > time.Duration(hangMS)*time.Millisecond {
+				atomic.StoreInt32(&stop, 1)
+				return burstResult{hung: true}
+			}
+		}
+	}
+	var res burstResult
+	// the drain by the main goroutine (thread 0), after everybody has returned
+	var drain []bev
+	for k := 0; k < 1<<20; k++ {
+		e := bev{tid: 0}
+		e.inv = atomic.AddInt64(&clock, 1)
+		func() {
+			defer func() {
+				if r := recover(); r != nil {
+					e.out = 'p'
+				}
+			}()
+			v, err := q.Dequeue()
+			switch {
+			case err == nil:
+				e.out, e.val = 'v', v
+			case qerr(err) == "empty":
+				e.out = 'z'
+			default:
+				e.out = 'x'
+			}
+		}()
+		e.res = atomic.AddInt64(&clock, 1)
+		drain = append(drain, e)
+		if e.out != 'v' {
+			break
+		}
+	}
+	enq := map[int]bev{}
+	deqs := map[int][]bev{}
+	var empties []bev
+	add := func(w string) {
+		if len(res.witnesses) < 3 {
+			res.witnesses = append(res.witnesses, w)
+		}
+	}
+	scan := func(l []bev, consumer bool) {
+		lastOf := map[int]bev{} // per producer: the last value this consumer took
+		for _, e := range l {
+			res.ops++
+			switch {
+			case e.out == 'p' || e.out == 'x':
+				res.panics++
+				add(witness([]bev{e}))
+			case e.enq:
+				enq[e.val] = e
+			case e.out == 'v':
+				deqs[e.val] = append(deqs[e.val], e)
+				if consumer {
+					pr := e.val / 1000000
+					if prev, ok := lastOf[pr]; ok && prev.val > e.val {
+						res.reordered++
+						if ex, ok1 := enq[prev.val]; ok1 {
+							if ey, ok2 := enq[e.val]; ok2 {
+								add(witness([]bev{ey, ex, prev, e}))
+							}
+						}
+					}
+					lastOf[pr] = e
+				}
+			case e.out == 'z' && consumer:
+				empties = append(empties, e)
+			}
+		}
+	}
+	for i := 0; i < P; i++ {
+		scan(evs[i], false)
+	}
+	for i := 0; i < C; i++ {
+		scan(evs[P+i], true)
+	}
+	scan(drain, false)
+	for v, ds := range deqs {
+		if _, ok := enq[v]; !ok {
+			res.invented++
+			add(witness(ds[:1]))
+		} else if len(ds) > 1 {
+			res.dups++
+			add(witness([]bev{enq[v], ds[0], ds[1]}))
+		}
+	}
+	last := drain[len(drain)-1]
+	if last.out == 'z' {
+		for v, e := range enq {
+			if len(deqs[v]) == 0 {
+				res.lost++
+				add(witness([]bev{e, last}))
+			}
+		}
+	}
+	res.empties = len(empties)
+	for _, d := range empties {
+		if len(res.witnesses) >= 3 {
+			break
+		}
+		// A value v is certainly in the queue from the response of Enqueue(v) to the invocation of the
+		// Dequeue that answers v.  Look for a small chain of such intervals covering the whole call d
+		// (greedy interval cover): those values, with d, are the witness.
+		const inf = int64(1) << 62
+		endOf := func(v int) int64 {
+			if ds := deqs[v]; len(ds) > 0 {
+				return ds[0].inv
+			}
+			return inf
+		}
+		var calls []bev
+		cur := d.inv
+		covered := false
+		for steps := 0; steps < 6 && !covered; steps++ {
+			best, bestEnd := -1, int64(-1)
+			for v, e := range enq {
+				if e.res < cur {
+					if en := endOf(v); en > cur && en > bestEnd {
+						best, bestEnd = v, en
+					}
+				}
+			}
+			if best < 0 {
+				break
+			}
+			calls = append(calls, enq[best])
+			calls = append(calls, deqs[best]...)
+			cur = bestEnd
+			covered = cur > d.res
+		}
+		if !covered {
+			// no such chain: fall back to all values possibly in the queue at some instant of d, if few
+			calls = nil
+			nv := 0
+			for v, e := range enq {
+				if e.inv > d.res {
+					continue
+				}
+				gone := false
+				for _, dq := range deqs[v] {
+					if dq.res < d.inv {
+						gone = true
+					}
+				}
+				if gone {
+					continue
+				}
+				nv++
+				calls = append(calls, e)
+				calls = append(calls, deqs[v]...)
+			}
+			if nv > 5 {
+				continue
+			}
+		}
+		calls = append(calls, d)
+		add(witness(calls))
+	}
+	return res
 }
 
 func render(all []event) string {
@@ -567,6 +936,9 @@ type stats struct {
 	Results      map[string]int `json:"results"`
 	Threads      map[string]int `json:"threads"`
 	Hangs        int            `json:"hangs"`
+	Bursts       int            `json:"bursts"`
+	BurstOps     int            `json:"burst_calls"`
+	BurstEmpties int            `json:"burst_empty_answers_under_permit"`
 	Screened     int            `json:"histories_screened_for_panics_only"`
 	Panics       int            `json:"panics"`
 }
@@ -626,9 +998,9 @@ func runAll(lines []string, out *vlib.Out, st *stats) {
 				k := int(atomic.LoadInt32(&curLine))
 				for i := k; i < len(lines); i++ {
 					switch f := strings.Fields(lines[i]); {
-					case f[0] == "run" && i == k:
+					case (f[0] == "run" || f[0] == "burst") && i == k:
 						out.Line("%s => hang", lines[i])
-					case f[0] == "run":
+					case f[0] == "run" || f[0] == "burst":
 						out.Line("%s => skipped", lines[i])
 					case f[0] == "new":
 						out.Line("%s => ok", lines[i])
@@ -767,6 +1139,40 @@ func runAll(lines []string, out *vlib.Out, st *stats) {
 			rn.close()
 			out.Line("%s => %s", line, strings.Join(hs, " | "))
 		default:
+			if w[0] == "burst" {
+				if sc == nil || sc.kind != "clq" || hungOnce {
+					out.Line("%s => skipped", line)
+					continue
+				}
+				bp := params(w[1:])
+				if singleCase {
+					// shrinking / replay: a longer burst makes the (rare) event reproducible
+					bp["n"] = strconv.Itoa(atoi(bp["n"]) * 4)
+				}
+				var br burstResult
+				for round := 0; round < 1 || (singleCase && round < 6 && len(br.witnesses) == 0); round++ {
+					br = runBurst(bp)
+					st.Bursts++
+					st.BurstOps += br.ops
+					st.BurstEmpties += br.empties
+					if br.hung {
+						break
+					}
+				}
+				if br.hung {
+					st.Hangs++
+					hungOnce = true
+					out.Line("%s => hang", line)
+					continue
+				}
+				obs := fmt.Sprintf("ops=%d empty=%d panic=%d dup=%d lost=%d invented=%d reordered=%d", br.ops, br.empties,
+					br.panics, br.dups, br.lost, br.invented, br.reordered)
+				for _, wt := range br.witnesses {
+					obs += " | " + wt
+				}
+				out.Line("%s => %s", line, obs)
+				continue
+			}
 			out.Line("%s => bad-op", line)
 		}
 	}
@@ -1231,6 +1637,19 @@ func generate(tier string, out *vlib.Out) {
 				out.Line("%s", l)
 			}
 		}
+	}
+	// permit bursts on the linked queue (3 producers / 6 consumers style)
+	bursts := 150
+	if tier == "thorough" {
+		bursts = 1000
+	}
+	if v := os.Getenv("VERIF_LINZ_BURSTS"); v != "" {
+		bursts = atoi(v)
+	}
+	for b := 0; b < bursts; b++ {
+		out.Line("new clq")
+		pc := vlib.Pick(g.r, [][2]int{{3, 6}, {3, 6}, {2, 4}, {1, 3}, {2, 6}, {4, 4}})
+		out.Line("burst p=%d c=%d n=%d seed=%d", pc[0], pc[1], vlib.Pick(g.r, []int{800, 1500, 3000}), g.r.U64()%1000000007)
 	}
 	for c := 0; c < cases; c++ {
 		switch c % 10 {
